@@ -65,6 +65,8 @@ def parse_py(rel: str) -> ast.Module:
             raise AnalysisError(f"{rel} does not parse: {e}")
         from . import localnames, normalise
         if rel in localnames.FILES:
+            from . import helpers
+            mod = helpers.apply(rel, mod)
             mod = normalise.normalise(mod, *_normal_facts())
         _ast_cache[rel] = localnames.canonicalise(rel, mod)
     return _ast_cache[rel]
